@@ -233,74 +233,99 @@ def NULL_KW : Bytes := [110, 117, 108, 108]
 def TRUE_KW : Bytes := [116, 114, 117, 101]
 def FALSE_KW : Bytes := [102, 97, 108, 115, 101]
 
+/-- nom result of the recursive object grammar: `error` is recoverable (`alt`, `many0` stop),
+`failure` (nesting deeper than `MAX_NESTING`) aborts the whole parse -/
+inductive PRes (α : Type) where
+  | ok (a : α) (rest : Bytes)
+  | error
+  | failure
+  deriving Repr
+
 mutual
-/-- `_direct_objects` (the `alt` in source order) -/
-def directObjects : Nat → Bytes → Option (Obj × Bytes)
-  | 0, _ => none
-  | fuel + 1, inp =>
+/-- `_direct_objects` (the `alt` in source order). `depth` = arrays/dictionaries currently open
+(`NESTING_DEPTH`). -/
+def directObjects : Nat → Nat → Bytes → PRes Obj
+  | 0, _, _ => .error
+  | fuel + 1, depth, inp =>
     match tag NULL_KW inp with
-    | some r => some (.null, r)
+    | some r => .ok .null r
     | none =>
     match tag TRUE_KW inp with
-    | some r => some (.bool true, r)
+    | some r => .ok (.bool true) r
     | none =>
     match tag FALSE_KW inp with
-    | some r => some (.bool false, r)
+    | some r => .ok (.bool false) r
     | none =>
     match pReference inp with
-    | some x => some x
+    | some (o, r) => .ok o r
     | none =>
     match pReal inp with
-    | some (t, r) => some (.real t, r)
+    | some (t, r) => .ok (.real t) r
     | none =>
     match pInteger inp with
-    | some (i, r) => some (.int i, r)
+    | some (i, r) => .ok (.int i) r
     | none =>
     match pName inp with
-    | some (n, r) => some (.name n, r)
+    | some (n, r) => .ok (.name n) r
     | none =>
     match pLiteral inp with
-    | some (s, r) => some (.str s .lit, r)
+    | some (s, r) => .ok (.str s .lit) r
     | none =>
     match pHexString inp with
-    | some (s, r) => some (.str s .hex, r)
+    | some (s, r) => .ok (.str s .hex) r
     | none =>
     match inp with
     | 91 :: r =>                                                -- array
-      let (items, r1) := manyObjects fuel fuel (space r)
-      (match r1 with
-       | 93 :: r2 => some (.arr items, r2)
-       | _ => none)
+      if depth ≥ MAX_NESTING then .failure else
+      (match manyObjects fuel (depth + 1) fuel (space r) with
+       | none => .failure
+       | some (items, r1) =>
+         (match r1 with
+          | 93 :: r2 => .ok (.arr items) r2
+          | _ => .error))
     | 60 :: 60 :: r =>                                          -- dictionary
-      let (es, r1) := dictEntries fuel fuel (space r) []
-      (match r1 with
-       | 62 :: 62 :: r2 => some (.dict es, r2)
-       | _ => none)
-    | _ => none
+      if depth ≥ MAX_NESTING then .failure else
+      (match dictEntries fuel (depth + 1) fuel (space r) [] with
+       | none => .failure
+       | some (es, r1) =>
+         (match r1 with
+          | 62 :: 62 :: r2 => .ok (.dict es) r2
+          | _ => .error))
+    | _ => .error
 /-- `_direct_object` = terminated(_direct_objects, space) -/
-def directObject : Nat → Bytes → Option (Obj × Bytes)
-  | fuel, inp => (directObjects fuel inp).map fun (o, r) => (o, space r)
-/-- `many0(_direct_object)`; `n` bounds the item count -/
-def manyObjects : Nat → Nat → Bytes → List Obj × Bytes
-  | _, 0, inp => ([], inp)
-  | fuel, n + 1, inp =>
-    match directObject fuel inp with
-    | some (o, r) => let (os, r') := manyObjects fuel n r; (o :: os, r')
-    | none => ([], inp)
-/-- `inner_dictionary`: fold_many0(pair(terminated(name, space), _direct_object)) with `Dictionary::set` -/
-def dictEntries : Nat → Nat → Bytes → Dict → Dict × Bytes
-  | _, 0, inp, acc => (acc, inp)
-  | fuel, n + 1, inp, acc =>
+def directObject : Nat → Nat → Bytes → PRes Obj
+  | fuel, depth, inp =>
+    match directObjects fuel depth inp with
+    | .ok o r => .ok o (space r)
+    | .error => .error
+    | .failure => .failure
+/-- `many0(_direct_object)`; `n` bounds the item count; `none` = failure -/
+def manyObjects : Nat → Nat → Nat → Bytes → Option (List Obj × Bytes)
+  | _, _, 0, inp => some ([], inp)
+  | fuel, depth, n + 1, inp =>
+    match directObject fuel depth inp with
+    | .ok o r => (manyObjects fuel depth n r).map fun (os, r') => (o :: os, r')
+    | .error => some ([], inp)
+    | .failure => none
+/-- `inner_dictionary`: fold_many0(pair(terminated(name, space), _direct_object)) with
+`Dictionary::set`; `none` = failure -/
+def dictEntries : Nat → Nat → Nat → Bytes → Dict → Option (Dict × Bytes)
+  | _, _, 0, inp, acc => some (acc, inp)
+  | fuel, depth, n + 1, inp, acc =>
     match pName inp with
     | some (k, r) =>
-      (match directObject fuel (space r) with
-       | some (v, r') => dictEntries fuel n r' (acc.set k v)
-       | none => (acc, inp))
-    | none => (acc, inp)
+      (match directObject fuel depth (space r) with
+       | .ok v r' => dictEntries fuel depth n r' (acc.set k v)
+       | .error => some (acc, inp)
+       | .failure => none)
+    | none => some (acc, inp)
 end
 
 /-- `parser::direct_object` (fuel that no input can exhaust: one unit per nesting level,
 item counts bounded by the input length). -/
-def parseDirect (inp : Bytes) : Option (Obj × Bytes) := directObject (inp.length + 1) inp
+def parseDirect (inp : Bytes) : Option (Obj × Bytes) :=
+  match directObject (inp.length + 1) 0 inp with
+  | .ok o r => some (o, r)
+  | _ => none
 
 end Lopdf
